@@ -240,6 +240,13 @@ Fixpoint extract_loop (ms : list member) (done : list entry) : list entry :=
   end.
 Definition extract (ms : list member) : list entry := extract_loop ms [].
 
+(* what an extracted entry is expected to look like: the mtime to the second; Size kept for
+   regular files (a hard-link member gets it back from the file it links to), dropped
+   otherwise; the bytes unchanged *)
+Definition extracted_stat (s : stat) : stat :=
+  round_mtime_to_second (if mode_is_regular (st_mode s) then s else set_size s 0).
+Definition extracted (e : entry) : entry := (extracted_stat (fst e), snd e).
+
 (* ---------- well-formedness ---------- *)
 (* Mode bits within the FileMode layout: permission bits, setuid/setgid/sticky, and exactly
    one of the six types tar can express.  Stated on the part above the nine permission
@@ -291,6 +298,11 @@ Fixpoint links_closed_from (done l : list entry) : bool :=
   | e :: r => link_target_ok done e && links_closed_from (done ++ [e]) r
   end.
 Definition links_closed (l : list entry) : bool := links_closed_from [] l.
+
+(* mtimes whose rounded value is representable in int64 nanoseconds (1677-09-21 .. 2262-04-11
+   minus half a second at either end) *)
+Definition mtime_in_range (e : entry) : bool :=
+  (Z.leb (-9223372036500000000) (sint (st_mtime (fst e))) && Z.ltb (sint (st_mtime (fst e))) 9223372036500000000)%Z.
 
 (* ---------- the specification, member by member (oracle of the correspondence run) ----------
    Written against the view entry, independently of hdr_of_stat: classification of the
